@@ -24,6 +24,11 @@ def budget(tier):
 def strategy_(draw):
     spec = copy.deepcopy(draw(gen.map_cases(factor=1.0, max_cells=10)))
     n = len(spec['query']['cells'])
+    if draw(st.booleans()):
+        # cells without any stored value, anywhere in the file (a sparse row of length zero)
+        spec['query']['zero_rows'] = draw(st.lists(st.integers(0, n - 1), min_size=1, max_size=3, unique=True))
+        if draw(st.integers(0, 3)) > 0:
+            spec['query']['enc'] = draw(st.sampled_from(['csr', 'csc']))
     rel = draw(st.sampled_from(['permute', 'subset', 'superset', 'duplicate', 'rechunk']))
     t = {'rel': rel}
     if rel == 'permute':
@@ -137,6 +142,8 @@ def check(spec):
     moved = any(ca.index(c) != cb.index(c) for c in ca if c in cb) or \
         (cfg_b['chunk_size'], cfg_b['n_processors']) != (spec['cfg']['chunk_size'], spec['cfg']['n_processors'])
     classes = ['rel_' + t['rel']]
+    if spec['query'].get('zero_rows') and spec['query']['enc'] != 'dense':
+        classes.append('sparse_query_with_empty_row')
     if skip:
         classes.append('near_tie_cells_skipped')
     return Case(moved and compared > 0, classes, info={'cells_compared': compared, 'near_tie_skipped': len(skip)})
